@@ -139,7 +139,11 @@ Definition m_rc (cfg : config) (x : rc_input) (sd : side) (mcs component : bool)
 Inductive mop :=
 | MFind (g1 g2 : rgraph) (mcs : bool)
 | MRc (x : rc_input) (sd : side) (mcs component : bool)
-| MReads (ds : list dir).
+| MReads (ds : list dir)
+| MFindAuto (g1 g2 : rgraph) (mcs : bool) (choices : list mapping).
+(** [MFindAuto]: find_common_subgraph on an object constructed with prune_automorphisms=True.  WHICH mapping represents a host
+    node set is VF2's enumeration order: [choices] (for every host node set the mapping VF2 enumerates first, obtained by the
+    harness from networkx alone) is an input, validated by [apply_choices] of C12_Model.v; a rejected parameter is reported. *)
 
 Definition tmaps (l : list mapping) : tok := tlist tmap l.
 Definition tanswer (o : option (list mapping)) : tok := match o with Some l => tmaps l | None => I (-1) end.
@@ -177,6 +181,15 @@ Definition m_step (cfg : config) (st : mstate) (o : mop) : mstate * tok :=
           else find_tok cfg ga gb mcs
       end
   | MReads ds => (st, L (tlist (fun d => tanswer (m_get st d)) ds :: m_views st))
+  | MFindAuto g1 g2 mcs choices =>
+      let r := find_common_subgraph (c_defs cfg) (c_prune cfg) (c_wc cfg) (project cfg g1) (project cfg g2) mcs in
+      match apply_choices (r_maps r) choices with
+      | Some kept =>
+          let st' := {| s_maps := kept; s_last := r_last r; s_flag := Some (r_pattern_is_g1 r) |} in
+          (st', search_tok st' (r_tried r)
+                  [ttrace (fcs_trace (c_defs cfg) (c_prune cfg) (c_wc cfg) (project cfg g1) (project cfg g2) mcs)])
+      | None => (s_init, L [I (-2)])
+      end
   end.
 
 (** the cache after a sequence of calls on ONE object (what the history theorems speak about; [h_play] below threads the same
